@@ -12,6 +12,8 @@ skip = json.load(open(SKIP_FILE)) if os.path.exists(SKIP_FILE) else []  # pairs 
 for d in sorted(glob.glob(os.path.join(HERE, "seeded", "*"))):
     meta = json.load(open(os.path.join(d, "meta.json")))
     name = meta["name"]
+    if os.environ.get("VF_ONLY") and os.environ["VF_ONLY"] not in name:
+        continue
     for prop in meta.get("caught_by", []):
         dest = os.path.join(HERE, "replays", f"{prop}_reg_{name}.json")
         if os.path.exists(dest) or [prop, name] in skip: continue
@@ -19,7 +21,7 @@ for d in sorted(glob.glob(os.path.join(HERE, "seeded", "*"))):
         sh("git", "-C", "/repo", "worktree", "add", "-f", "--detach", WT, head)
         sh("git", "-C", WT, "apply", os.path.join(d, "patch.diff"))
         ok = False
-        for tier in ("quick", "thorough"):
+        for tier in os.environ.get("VF_SEEDED_TIERS", "quick,thorough").split(","):
             ev = tempfile.mkdtemp(prefix="vf_ev_")
             sh(os.path.join(HERE, "run.py"), prop, "--tier", tier, env=dict(os.environ, Y0_REPO=WT, VF_EVIDENCE_DIR=ev))
             cands = sorted(glob.glob(os.path.join(ev, "replays", f"{prop}_*.json")), key=os.path.getsize)
